@@ -27,7 +27,7 @@ pub fn ob_via(name: &str, lemma: &str, premises: B, direct: B) {
 }
 /// `whole = p1 + p2` within two roundings, for `p2` computed as `whole - p1` with `0 <= p1 <= whole`
 pub fn ob_split(name: &str, whole: F, p1: F, p2: F) {
-    let prem = p2.ident(whole - p1).and(k(0.0).le(p1)).and(p1.le(whole)).and(whole.le(k(1.0e30)));
+    let prem = p2.ident(whole - p1).and(k(0.0).le_(p1)).and(p1.le_(whole)).and(whole.le_(k(1.0e30)));
     ob_via(name, "split", prem, (p1 + p2).approx(whole, 2.0, whole));
 }
 pub fn out(name: &str, v: F) {
